@@ -1,4 +1,5 @@
 import Proofs.C05Wf
+import Props.C01
 /-!
 # C05 — each token has one owner on every replica (property theorems)
 
@@ -66,6 +67,16 @@ theorem reachable_wf {s : Desc} (h : Reachable s) : WF s := PfC05.reachable_wf h
 theorem reachable_one_owner {s : Desc} (h : Reachable s) (t : Nat) (i j : Inst)
     (hi : i ∈ s) (hj : j ∈ s) (hti : t ∈ i.tokens) (htj : t ∈ j.tokens) : i = j :=
   wf_one_owner (PfC05.reachable_wf h) t i j hi hj hti htj
+
+/-- **lookups over any reachable state never report inconsistent token information and never
+panic** (on the C01 lookup model, which is tied to `Ring.Get` by C01's correspondence check): the
+well-formedness kept by every merge is exactly what C01's walk needs. -/
+theorem lookups_total_on_reachable {s : Desc} (h : Reachable s) (cfg : C01.Cfg) (key : Nat) (op : C01.Op)
+    (now : Int) (hrf : 1 ≤ cfg.rf) :
+    C01.get cfg s (C01.sortedTokens s) key op now ≠ .error .inconsistentTokens ∧
+    C01.get cfg s (C01.sortedTokens s) key op now ≠ .error .panic :=
+  let hw := PfC05.reachable_wf h
+  PC01.walk_no_inconsistent cfg s key op now ⟨hw.nodup, hw.noconf⟩ hrf
 
 /-! ### Non-vacuity -/
 
